@@ -52,7 +52,11 @@ KINDS = ["match_result", "match_null", "match_error", "match_scalar", "same_id_r
          "same_id_request_params", "other_response", "other_request", "notification",
          "progress", "batch_with_match", "other_error", "int_twin", "match_result2",
          "batch_of_one_match", "batch_of_one_error", "batch_empty",
-         "match_empty_obj", "match_empty_list", "match_zero", "match_false", "match_empty_str", "progress_own"]
+         "match_empty_obj", "match_empty_list", "match_zero", "match_false", "match_empty_str", "progress_own",
+         # notifications whose *params* mention the pending request's id: ids are per direction, so a peer's
+         # notifications/cancelled naming that id speaks of one of the peer's own requests, and a progress token that
+         # equals the id is a token - neither is the response
+         "note_cancelled_names_id", "note_token_is_id"]
 
 
 # ids of distractor responses are drawn from the ids that other calls of the same process use as their own
@@ -89,6 +93,10 @@ def _wire(kind: str, rid: Any, n: int) -> Any:
         return {"jsonrpc": "2.0", "id": other, "method": "ping"}
     if kind == "notification":
         return {"jsonrpc": "2.0", "method": "notifications/message", "params": {"level": "info", "data": n}}
+    if kind == "note_cancelled_names_id":
+        return {"jsonrpc": "2.0", "method": "notifications/cancelled", "params": {"requestId": rid, "reason": f"peer gave up {n}"}}
+    if kind == "note_token_is_id":
+        return {"jsonrpc": "2.0", "method": "notifications/progress", "params": {"progressToken": rid, "progress": n, "total": 3}}
     if kind in ("progress", "progress_own"):
         return {"jsonrpc": "2.0", "method": "notifications/progress",
                 "params": {"progressToken": "tok", "progress": n, "total": 10}}
